@@ -184,6 +184,7 @@ package p9
 //@   requires[C09] @one-component len(names) <= 1
 //@   requires[C09] @safe-name len(names) == 1 ==> safe(names[0])
 //@   ghost set $lasterr:error = result2
+//@   ensures result2 == nil ==> result1 != nil
 //@   maypanic
 //@ interface File.WalkGetAttr
 //@   params names
@@ -192,6 +193,7 @@ package p9
 //@   requires[C09] @one-component len(names) <= 1
 //@   requires[C09] @safe-name len(names) == 1 ==> safe(names[0])
 //@   ghost set $lasterr:error = result4
+//@   ensures result4 == nil ==> result1 != nil
 //@   maypanic
 //@ interface File.StatFS
 //@   ghost set $lasterr:error = result1
@@ -252,6 +254,7 @@ package p9
 //@   requires[C09] safe(name)
 //@   ghost set $lasterr:error = result3
 //@   ghost set $ret.File:File = result0
+//@   ensures result3 == nil ==> result0 != nil
 //@   maypanic
 //@ interface File.Mkdir
 //@   requires[C07] bound(recv) ==> writeLocked(refof(recv))
@@ -310,6 +313,8 @@ package p9
 //@   requires[C07] bound(recv) ==> globalLocked(refof(recv))
 //@   maypanic
 //@ interface Attacher.Attach
+//@   ensures result1 == nil ==> result0 != nil
+//@   ghost set $lasterr:error = result1
 //@   maypanic
 
 // ---- path tree (C08, C16): loop-free operations ------------------------------
@@ -692,3 +697,90 @@ package p9
 //@   ensures[C08] @fenced-refused safe(old(t.Name)) && old(has(cs.fids, t.fid)) && old(has(cs.fids, t.Directory)) && old(cs.fids[t.fid].parent) != nil && (old(fenced(cs.fids[t.fid])) || old(fenced(cs.fids[t.Directory]))) ==> isErr(result, linux.EINVAL) && nocalls()
 //@   at File.RenameAt requires[C03,C08] @parent-and-current-name recv == old(cs.fids[t.fid].parent).file && arg0 == old(cs.fids[t.fid].parent.pathNode.childRefNames[cs.fids[t.fid]]) && arg1 == old(cs.fids[t.Directory]).file && arg2 == old(t.Name)
 //@   at (*fidRef).renameChildTo requires[C08] @tree-updated-only-after-success ghost("$lasterr", error) == nil && ncalls("File.RenameAt") == old(ncalls("File.RenameAt")) + 1 && recv == old(cs.fids[t.fid].parent) && arg1 == old(cs.fids[t.Directory]) && arg2 == old(t.Name)
+
+// ---- walk ---------------------------------------------------------------------------
+//@ func walkOne
+//@   provenance from
+//@   requires[C07] @from-read-locked bound(from) ==> readLocked(refof(from))
+//@   requires[C08] @from-not-fenced bound(from) && len(names) > 0 ==> !fenced(refof(from))
+//@   requires[C09] @component-safe len(names) == 1 ==> safe(names[0])
+//@   modifies arrays(QID), $ncalls, $n.*, $lasterr, $ret.*
+//@   ensures[C04,C05,C15] @file-iff-success (result4 == nil) == (result1 != nil)
+//@   ensures[C09,C04] @too-many-names-refused len(names) > 1 ==> errIs(result4, linux.EINVAL) && nocalls()
+//@   ensures[C15,C16] samelocks()
+//@   panic_ensures[C15,C16] samelocks()
+//@   maypanic
+
+//@ func doWalk
+//@   use helperFrame
+//@   requires[C04,C07,C08] ref != nil && ref.server == cs.server
+//@   modifies maps(map[string]*pathNode), arrays(QID)
+//@   ensures[C04,C07,C08] @refs-invariant Irefs()
+//@   ensures[C07,C08,C16] @tree-nodes-invariant Inodes()
+//@   ensures[C04] @table-invariant Ifid(cs)
+//@   ensures[C04,C05] @ref-iff-success (err == nil) == (newRef != nil)
+//@   ensures[C04] @new-ref-on-this-server err == nil ==> newRef.server == cs.server && !newRef.opened
+//@   ensures[C09] @unsafe-component-einval exists(j, 0, len(names), !safe(names[j])) ==> errIs(err, linux.EINVAL) && nocalls()
+//@   ensures[C08] @fenced-start-enoent len(names) > 0 && forall(j, 0, len(names), safe(names[j])) && FileMode.IsDir(old(ref.mode)) && old(fenced(ref)) ==> errIs(err, linux.ENOENT) && nocalls()
+//@   at walkOne requires[C09] @only-through-directories len(arg2) > 0 ==> bound(arg1) && FileMode.IsDir(refof(arg1).mode)
+//@   at walkOne requires[C09] @one-component-at-a-time len(arg2) <= 1
+//@   loop 0 invariant[C09] 0 <= rangeindex + 1 && rangeindex + 1 <= len(names)
+//@   loop 0 invariant[C09] forall(j, 0, rangeindex + 1, safe(names[j]))
+//@   loop 1 invariant[C09] 0 <= i && i <= len(names)
+//@   loop 1 invariant[C09] forall(j, 0, len(names), safe(names[j]))
+//@   loop 1 invariant[C04,C07,C08] walkRef != nil && walkRef.server == cs.server
+//@   loop 1 invariant[C04] i > 0 ==> !walkRef.opened
+//@   loop 1 invariant[C15,C16] nolocks()
+//@   loop 1 invariant[C04] Ifid(cs)
+//@   loop 1 invariant[C07,C08,C16] Inodes()
+//@   loop 1 invariant[C07,C08] Irefs()
+//@   loop 1 invariant[C09] InamesSafe()
+//@   loop 1 invariant[C08] len(names) > 0 && FileMode.IsDir(old(ref.mode)) && old(fenced(ref)) ==> i == 0 && walkRef == ref && nocalls()
+//@   loop 1 decreases[C09] len(names) - i
+
+//@ group walkRows
+//@   ensures[C04] @unbound-fid-ebadf !old(has(cs.fids, t.fid)) ==> isErr(result, linux.EBADF) && nocalls() && sameFids(cs)
+//@   ensures[C04] @walk-in-place-from-open-ebusy old(has(cs.fids, t.fid)) && old(cs.fids[t.fid].opened) && old(t.fid) == old(t.newFID) ==> isErr(result, linux.EBUSY) && nocalls() && sameFids(cs)
+//@   ensures[C04,C15] @binds-only-on-success typeis(result, *rlerror) ==> sameFids(cs)
+//@   ensures[C04] @other-fids-unchanged forall(k, fid, k != old(t.newFID) ==> has(cs.fids, k) == old(has(cs.fids, k)) && cs.fids[k] == old(cs.fids[k]))
+//@   ensures[C09] @unsafe-component-einval old(has(cs.fids, t.fid)) && !(old(cs.fids[t.fid].opened) && old(t.fid) == old(t.newFID)) && exists(j, 0, len(old(t.Names)), !safe(old(t.Names)[j])) ==> isErr(result, linux.EINVAL) && nocalls()
+
+//@ func (*twalk).handle
+//@   use handlerBase walkRows
+//@   ensures[C06] @reply-type typeis(result, *rwalk) || typeis(result, *rlerror)
+//@   ensures[C04] @success-binds-unopened-newfid typeis(result, *rwalk) ==> has(cs.fids, old(t.newFID)) && !cs.fids[old(t.newFID)].opened
+//@   at doWalk requires[C03] @forwards arg1 == old(cs.fids[t.fid]) && arg2 == old(t.Names) && !arg3
+
+//@ func (*twalkgetattr).handle
+//@   use handlerBase walkRows
+//@   ensures[C06] @reply-type typeis(result, *rwalkgetattr) || typeis(result, *rlerror)
+//@   ensures[C04] @success-binds-unopened-newfid typeis(result, *rwalkgetattr) ==> has(cs.fids, old(t.newFID)) && !cs.fids[old(t.newFID)].opened
+//@   at doWalk requires[C03] @forwards arg1 == old(cs.fids[t.fid]) && arg2 == old(t.Names) && arg3
+
+//@ func (*tattach).handle
+//@   use handlerBase
+//@   ensures[C06] @reply-type typeis(result, *rattach) || typeis(result, *rlerror)
+//@   ensures[C04] @auth-fid-einval old(t.Auth.Authenticationfid) != noFID ==> isErr(result, linux.EINVAL) && nocalls() && sameFids(cs)
+//@   ensures[C04,C15] @binds-only-on-success typeis(result, *rlerror) ==> sameFids(cs)
+//@   ensures[C04] @success-binds-fid typeis(result, *rattach) ==> has(cs.fids, old(t.fid)) && !cs.fids[old(t.fid)].opened
+//@   ensures[C04] @other-fids-unchanged forall(k, fid, k != old(t.fid) ==> has(cs.fids, k) == old(has(cs.fids, k)) && cs.fids[k] == old(cs.fids[k]))
+//@   at doWalk requires[C09] @attach-name-goes-through-walk !arg3
+
+// ---- version-3 creation messages: forward with the explicit uid ---------------------
+//@ func (*tucreate).handle
+//@   use handlerBase
+//@   ensures[C06] @reply-type typeis(result, *rucreate) || typeis(result, *rlerror)
+//@   at (*tlcreate).do requires[C03] @forwards-uid arg1 == old(t.UID)
+//@   ensures[C04,C15] @error-leaves-table typeis(result, *rlerror) ==> sameFids(cs)
+//@ func (*tumkdir).handle
+//@   use handlerBase dirOpRows
+//@   ensures[C06] @reply-type typeis(result, *rumkdir) || typeis(result, *rlerror)
+//@   at (*tmkdir).do requires[C03] @forwards-uid arg1 == old(t.UID)
+//@ func (*tusymlink).handle
+//@   use handlerBase dirOpRows
+//@   ensures[C06] @reply-type typeis(result, *rusymlink) || typeis(result, *rlerror)
+//@   at (*tsymlink).do requires[C03] @forwards-uid arg1 == old(t.UID)
+//@ func (*tumknod).handle
+//@   use handlerBase dirOpRows
+//@   ensures[C06] @reply-type typeis(result, *rumknod) || typeis(result, *rlerror)
+//@   at (*tmknod).do requires[C03] @forwards-uid arg1 == old(t.UID)
